@@ -16,6 +16,7 @@ import (
 	"bytes"
 	"fmt"
 	"go/ast"
+	"go/types"
 	"path/filepath"
 	"reflect"
 	"sort"
@@ -68,6 +69,78 @@ func clockStrips(root *pkg) []string {
 				return true
 			})
 		}
+	}
+	sort.Strings(out)
+	return out
+}
+
+// msgReads lists what reassembler.go does with the messages it is given beyond keeping and handing on the pointers:
+// "field:<Name>" for every field or method of auparse.AuditMessage it selects, and "call:<callee>" for every call that
+// hands a message or a slice of messages to a function declared outside the root package (append excepted). The
+// Reassembler model's message is (identity, sequence, record type): grouping, order, completion and loss accounting
+// are functions of those and of the clock. A Reassembler that also looks at the time stamp, the text or the parsed
+// data of a record is outside that reading, whatever it uses them for.
+func msgReads(root *pkg) []string {
+	seen := map[string]bool{}
+	isMsg := func(t types.Type) bool {
+		if t == nil {
+			return false
+		}
+		s := t.String()
+		s = strings.TrimPrefix(s, "[]")
+		s = strings.TrimPrefix(s, "*")
+		return strings.HasSuffix(s, "/auparse.AuditMessage")
+	}
+	for _, f := range root.files {
+		if filepath.Base(root.fset.Position(f.Pos()).Filename) != "reassembler.go" {
+			continue
+		}
+		ast.Inspect(f, func(n ast.Node) bool {
+			switch x := n.(type) {
+			case *ast.SelectorExpr:
+				if tv, ok := root.info.Types[x.X]; ok && isMsg(tv.Type) && !strings.HasPrefix(tv.Type.String(), "[]") {
+					seen["field:"+x.Sel.Name] = true
+				}
+			case *ast.CallExpr:
+				hands := false
+				for _, a := range x.Args {
+					if tv, ok := root.info.Types[a]; ok && isMsg(tv.Type) {
+						hands = true
+					}
+				}
+				if !hands {
+					return true
+				}
+				switch fun := x.Fun.(type) {
+				case *ast.Ident:
+					if obj := root.info.Uses[fun]; obj != nil && obj.Pkg() == nil {
+						return true // a builtin (append, make, len, cap, copy): the pointers are kept or counted, not read
+					}
+					if obj := root.info.Uses[fun]; obj != nil && obj.Pkg() == root.tpkg {
+						return true
+					}
+					seen["call:"+fun.Name] = true
+				case *ast.SelectorExpr:
+					if obj := root.info.Uses[fun.Sel]; obj != nil && obj.Pkg() == root.tpkg {
+						if fn, ok := obj.(*types.Func); ok {
+							if sig, ok := fn.Type().(*types.Signature); ok && sig.Recv() != nil {
+								if _, isIface := sig.Recv().Type().Underlying().(*types.Interface); !isIface {
+									return true
+								}
+							}
+						}
+					}
+					seen["call:"+fun.Sel.Name] = true
+				default:
+					seen["call:?"] = true
+				}
+			}
+			return true
+		})
+	}
+	var out []string
+	for k := range seen {
+		out = append(out, k)
 	}
 	sort.Strings(out)
 	return out
@@ -412,6 +485,17 @@ func genReasmFactsImpl() {
 	b.WriteString("def clockStrips : List String := [")
 	if reasmRoot != nil {
 		for i, s := range clockStrips(reasmRoot) {
+			if i > 0 {
+				b.WriteString(", ")
+			}
+			fmt.Fprintf(&b, "%q", s)
+		}
+	}
+	b.WriteString("]\n")
+	b.WriteString("/-- what reassembler.go reads of, and does with, the messages it is given (see msgReads in harness/cmd/extract/reasmfacts.go) -/\n")
+	b.WriteString("def msgReads : List String := [")
+	if reasmRoot != nil {
+		for i, s := range msgReads(reasmRoot) {
 			if i > 0 {
 				b.WriteString(", ")
 			}
